@@ -4,7 +4,7 @@ from props.subgen import Sub
 
 
 def check(run, tier, seed, replay):
-    compcheck.run(run, "C19", [gen_bits, Sub(gen_cds32, ["bits"])], tier, seed, replay, timeout_case=120,
+    compcheck.run(run, "C19", [gen_bits, Sub(gen_cds32, ["bits"])], tier, seed, replay, timeout_case=(40 if tier == "quick" else 120),
                   rule="bit vectors of lengths 1, 31..33, 63..65, around multiples of 32*factor, up to ~2000 (10007 thorough): all-zero, all-one, "
                        "single 1 first/last, alternating, long runs, random at densities 1/50/99%; builders RG(factor 1,2,4,20), RRR(16,32), SDArray, "
                        "DArray; every access/rank0/rank1/select0/select1 (all positions for small n, boundaries + random otherwise, select "
